@@ -56,7 +56,7 @@ def layout_oracle(wt, scratch, rng):
         return ("a file produced by an independent v1 encoder is read back differently: " + B.first_diff(r[1], wt),
                 {"check": "read_ref"})
     # same bytes whatever the order in which the cells were supplied
-    if len(wt) >= 2:
+    if len(wt) >= 2 and not B.has_restated(wt):   # restated cells keep their supply order (C01: cells_separated)
         from bermuda import Triangle
 
         cells = B.mk_cells(wt)
@@ -182,7 +182,7 @@ def run(ctx):
             kw = {}
             if i % 25 == 3:
                 kw = dict(size="big", n_slices=rng.choice([1, 2]))
-            wt = B.gen_triangle(rng, **kw)
+            wt = B.gen_triangle(rng, **kw) if i % 40 != 7 else B.gen_calendar_triangle(rng)
             s = B.wt_summary(wt)
             ctx.hist(f"slices={s['slices']}")
             ctx.hist(f"kind={'/'.join(s['kinds']) or 'empty'}")
